@@ -287,6 +287,40 @@ def check_one(layer, c, tmp, acc):
             acc.violation('C13', f'csv/not-a-fixpoint/{cls()}', f'second and third generation files differ: {b2[:200]!r} vs {b3[:200]!r}', case)
     except Exception as ex:  # noqa
         acc.violation('C13', f'csv/fixpoint-raised-{type(ex).__name__}/{cls()}', f'second read/write cycle raised {type(ex).__name__}: {ex}', case)
+    # a LOADED plan is restructured and written again: the file describes the plan as it is now (a task moved to another parent
+    # or to the top level, a dependency added / removed), not as it was when it was read
+    if layer == 'structure' and len(c.par) >= 2:
+        f4 = os.path.join(tmp, 'f4.csv')
+        for edit in ('move-last', 'toggle-link'):
+            try:
+                r = read_csv(f1)
+                ts = list(r.tasks)
+                a, z = ts[0], ts[-1]
+                if edit == 'move-last':
+                    if z.parent is not None:
+                        z.parent = None
+                    else:
+                        z.parent = a
+                else:
+                    if a in list(z.predecessors):
+                        z.predecessors.remove(a)
+                    else:
+                        z.predecessors.append(a)
+            except RuntimeError:
+                continue  # the edit is not legal on this structure
+            except Exception as ex:  # noqa
+                acc.violation('C13', f'csv/edit-of-loaded-raised-{type(ex).__name__}/{cls()}', f'{edit} on a loaded WBS raised {ex}', case)
+                continue
+            try:
+                want = meaning_of_wbs(r)
+                write_csv(r, f4)
+                got = meaning_of_wbs(read_csv(f4))
+                acc.count('rewrite_after_edit')
+                d = diff(want, got)
+                if d:
+                    acc.violation('C13', f'csv/loaded-then-edited-{d[0]}/{edit}', f'a loaded WBS after {edit}, written and read again: ' + d[1], case)
+            except Exception as ex:  # noqa
+                acc.violation('C13', f'csv/loaded-then-edited-raised-{type(ex).__name__}/{edit}', f'write/read after {edit} raised {ex}', case)
     # hand-written layouts
     for eol, bom, qa in (('\r\n', False, False), ('\n', False, False), ('\r\n', True, False), ('\n', True, False), ('\r\n', False, True), ('\n', False, True)):
         h = os.path.join(tmp, 'h.csv')
